@@ -77,6 +77,8 @@ pub enum PG {
     DistinctFd(T),
     PlusZ(T, T, T),
     TimesZ(T, T, T),
+    /// `closure { g, .. }`: the body is built when the goal is solved
+    Closure(Vec<PG>),
     /// a goal that succeeds once and records the user state / constraint store it sees (C22)
     Probe,
 }
@@ -187,6 +189,10 @@ impl PG {
             }
             PG::PlusZ(a, b, c) => t3("plusz", a, b, c, out),
             PG::Probe => out.push_str("probe "),
+            PG::Closure(gs) => {
+                out.push_str("closure ");
+                toks_goals(gs, out)
+            }
             PG::TimesZ(a, b, c) => t3("timesz", a, b, c, out),
         }
     }
@@ -253,6 +259,7 @@ impl PG {
             "distinctfd" => PG::DistinctFd(T::parse(t)),
             "plusz" => PG::PlusZ(T::parse(t), T::parse(t), T::parse(t)),
             "probe" => PG::Probe,
+            "closure" => PG::Closure(goals(t)),
             "timesz" => PG::TimesZ(T::parse(t), T::parse(t), T::parse(t)),
             other => panic!("bad goal token {}", other),
         }
@@ -371,6 +378,11 @@ pub fn build<K: Kind>(g: &PG, vars: &mut Vars) -> K {
         PG::DistinctFd(a) => rel::distinctfd::<DU, DE, K>(t!(a)).cast_into(),
         PG::PlusZ(a, b, c) => rel::plusz::<DU, DE, K>(t!(a), t!(b), t!(c)).cast_into(),
         PG::Probe => probe_goal::<K>(false, vec![]),
+        PG::Closure(gs) => {
+            let v: Vec<K> = gs.iter().map(|x| build::<K>(x, vars)).collect();
+            let g: K = InferredConj::<DU, DE, K>::from_array(&v).cast_into();
+            proto_vulcan::operator::closure::Closure::new(proto_vulcan::operator::ClosureOperatorParam::new(Box::new(move || g.clone()))).cast_into()
+        }
         PG::TimesZ(a, b, c) => rel::timesz::<DU, DE, K>(t!(a), t!(b), t!(c)).cast_into(),
     }
 }
@@ -662,39 +674,30 @@ pub fn run_prog_b(p: &Prog, budget: u64) -> RunOut {
     }
     let mut vars = Vars::new(p.nvars);
     let goals: Vec<Goal<DU, DE>> = p.body.iter().map(|g| build::<Goal<DU, DE>>(g, &mut vars)).collect();
-    // the query goal exactly as `proto_vulcan_query!` builds it
     let qvars: Vec<LT> = vars.v[..p.nq].to_vec();
+    run_goal(&vars, &qvars, proto_vulcan::operator::conj::Conj::from_array(&goals), p.take, budget)
+}
+
+/// Runs a body goal as a query: the goal exactly as `proto_vulcan_query!` builds it
+/// (`fresh(__query__) [__query__ == [vars], body, reify(__query__)]`), iterated through `Query`.
+pub fn run_goal(vars: &Vars, qvars: &[LT], body: Goal<DU, DE>, take: usize, budget: u64) -> RunOut {
+    let qvars: Vec<LT> = qvars.to_vec();
     let query_var = LT::var("__query__");
-    let goal: Goal<DU, DE> = Fresh::new(
-        vec![query_var.clone()],
-        GoalCast::cast_into(InferredConj::from_array(&[
-            GoalCast::cast_into(rel::eq::eq(query_var.clone(), LT::from_array(&qvars))),
-            proto_vulcan::operator::conj::Conj::from_array(&goals),
-            proto_vulcan::state::reify(query_var.clone()),
-        ])),
-    )
-    .cast_into();
     let cntm = CNT_MODE.with(|c| c.get());
     let cnt = cntm != 0;
-    let goal: Goal<DU, DE> = if cnt {
-        // the same query with a final probe after `reify`
-        Fresh::new(
-            vec![query_var.clone()],
-            GoalCast::cast_into(InferredConj::from_array(&[
-                GoalCast::cast_into(rel::eq::eq(query_var.clone(), LT::from_array(&qvars))),
-                proto_vulcan::operator::conj::Conj::from_array(&goals),
-                proto_vulcan::state::reify(query_var.clone()),
-                probe_goal::<Goal<DU, DE>>(true, qvars.clone()),
-            ])),
-        )
-        .cast_into()
-    } else {
-        goal
-    };
+    let mut parts: Vec<Goal<DU, DE>> = vec![
+        GoalCast::cast_into(rel::eq::eq(query_var.clone(), LT::from_array(&qvars))),
+        body,
+        proto_vulcan::state::reify(query_var.clone()),
+    ];
+    if cnt {
+        // counter mode: a final probe after `reify`
+        parts.push(probe_goal::<Goal<DU, DE>>(true, qvars.clone()));
+    }
+    let goal: Goal<DU, DE> = Fresh::new(vec![query_var.clone()], GoalCast::cast_into(InferredConj::from_array(&parts))).cast_into();
     PROBES.with(|p| p.borrow_mut().clear());
     let query: Query<QR, DU, DE> = Query::new(qvars.clone(), goal);
     let mut answers: Vec<Ans> = vec![];
-    let take = p.take;
     proto_vulcan::verif::set_budget(budget);
     let r = crate::catch(|| {
         let mut iter = query.run_with_user(DU::default(), ());
@@ -706,7 +709,7 @@ pub fn run_prog_b(p: &Prog, budget: u64) -> RunOut {
             }
             match iter.next() {
                 None => break,
-                Some(QR(results)) => answers.push(read_answer(&vars, &results)),
+                Some(QR(results)) => answers.push(read_answer(vars, &results)),
             }
         }
         more
@@ -720,7 +723,7 @@ pub fn run_prog_b(p: &Prog, budget: u64) -> RunOut {
                 .iter()
                 .filter(|r| r.last)
                 .map(|r| {
-                    let mut rd = Reader::new(&vars);
+                    let mut rd = Reader::new(vars);
                     let terms: Vec<T> = r.terms.iter().map(|t| rd.read(t)).collect();
                     let n = terms.len();
                     Ans { terms, constraints: vec![], relevant: vec![vec![]; n], constrained: vec![false; n], counters: Some(if cntm == 1 { (r.withs, r.takes, r.stored) } else { (r.withs.saturating_sub(r.takes), 0, r.stored) }) }
